@@ -492,6 +492,10 @@ func construct(c *mon.Case, bf *bufs, s spec, path string, p placed, m *material
 	var f func(dst, src []byte)
 	var err error
 	what := "New " + s.String() + " (" + path + ")"
+	// (re)fill the caller's buffers: an earlier construction of the case has overwritten them
+	copy(p.key, m.key)
+	copy(p.key2, m.key2)
+	copy(p.iv, m.iv)
 	if !c.Call(what, func() { f, err = build(s, path, p.key, p.key2, p.iv, m) }) {
 		return nil
 	}
@@ -503,6 +507,15 @@ func construct(c *mon.Case, bf *bufs, s spec, path string, p placed, m *material
 	if !bytes.Equal(p.key, m.key) || !bytes.Equal(p.key2, m.key2) || !bytes.Equal(p.iv, m.iv) {
 		c.Event("observation/constructor_modified_caller_key_or_iv", 1)
 	}
+	// input-buffer independence: the object must own what it needs. The caller's key, second key and IV/tweak
+	// buffers are overwritten now (the reference works on the private copies in m); every later output of the
+	// object is still judged against the original values.
+	for _, b := range [][]byte{p.key, p.key2, p.iv} {
+		for i := range b {
+			b[i] = 0xA5
+		}
+	}
+	c.Event("caller_key_iv_buffers_overwritten_after_construction", 1)
 	return f
 }
 
